@@ -911,6 +911,9 @@ func (e *scanEnv) runCLI(sc cases.ScanCase, opt cliOpt) (*cliRun, error) {
 			if mm := reWitness.FindStringSubmatch(s); mm != nil && mm[2] != "" {
 				if _, done := res.Resolved[mm[2]]; !done {
 					out, err := r.Git("rev-parse", "--verify", "--end-of-options", mm[2])
+					if len(mm[2]) > 100000 && !strings.Contains(mm[2], "\n") {
+						out, err = r.ResolveLong(mm[2]) // longer than one argument may be
+					}
 					if err != nil {
 						res.Resolved[mm[2]] = ""
 					} else {
